@@ -9,8 +9,9 @@
 // Abstract state: alpha = (h, t, pending = buf[..buflen]), invariant buflen <= block size.  One operation from an
 // ARBITRARY state per harness; EngineS::compress is replaced by a loop-free recorder (h in, t, last flag, the block, h out
 // = ARBITRARY), so the claims hold for every compression function.
-// Counter: the C01/C02 harnesses assume the low counter word does not wrap inside the step (t[0] <= MAX - 3 blocks);
-// the wrap itself is the subject of c20_hash_blake2s_increment_counter (the crate's `+=` overflows in checked builds).
+// Counter: arbitrary two-word counter below the algorithm's limit (t[1] < MAX): steps across the wrap of the low word are included and
+// the carry is asserted.  (Before /repo commit 3124416 `increment_counter` used `+=` and panicked there in checked builds:
+// found by c20_hash_blake2s_increment_counter / _update_across_counter_wrap.)
 #![allow(dead_code, unused_imports, unused_variables, unused_macros, missing_docs, static_mut_refs)]
 use super::*;
 use crate::hashing::verif_hash::*;
@@ -260,7 +261,7 @@ pub(crate) fn arb() -> Arb {
     let buflen: usize = any();
     let outlen: usize = any();
     assume(buflen <= BB && outlen >= 1 && outlen <= MAXOUT);
-    assume(t[0] <= W::MAX - (3 * BB as W)); // no low-word wrap inside one step: see c20_hash_blake2s_increment_counter
+    assume(t[1] < W::MAX); // total length below the algorithm's limit of 2^(2w) bytes; the low word MAY wrap inside the step (carry asserted)
     Arb { h, t, buf, buflen, outlen }
 }
 fn mk<C: Ctx2>(a: &Arb) -> C {
@@ -321,6 +322,7 @@ fn case_update_step<C: Ctx2, const MAX: usize>() {
     vcover!(buflen > 0 && buflen + len == BB, "buffer becomes exactly full: nothing compressed yet");
     vcover!(buflen == BB && len == 1, "full pending block is compressed only now");
     vcover!(buflen + len == 2 * BB + 1, "two blocks compressed, one byte pending");
+    vcover!(buflen + len > BB && a.t[0] > W::MAX - (BB as W), "low counter word wraps inside the step");
     let mut c: C = mk(&a);
     c_reset();
     unsafe {
@@ -419,6 +421,7 @@ fn final_covers(a: &Arb) {
     vcover!(a.buflen == 0, "nothing pending (empty unkeyed message): one all-zero block");
     vcover!(a.buflen == BB, "full pending block");
     vcover!(a.buflen == 1, "one pending byte");
+    vcover!(a.buflen > 0 && a.t[0] > W::MAX - (a.buflen as W), "low counter word wraps in the final increment");
 }
 fn case_finalize_at<C: Ctx2>() {
     let a = arb();
@@ -831,6 +834,27 @@ pub(crate) fn c01_t_blake2s_keyed_end_to_end() {
     ContextDyn::new_keyed(outlen, &key[..keylen]).update(msg.get()).finalize_at(&mut out[..outlen]);
     let exp = spec_blake2(outlen, &key, keylen, &msg.buf, msg.len);
     check_digest(&out, &prior, outlen, &exp);
+}
+#[cfg_attr(kani, kani::proof)]
+#[cfg_attr(kani, kani::unwind(66))]
+#[cfg_attr(kani, kani::stub(crate::hashing::blake2::EngineS::compress, toy_compress))]
+pub(crate) fn c01_blake2s_keyed_end_to_end() {
+    // quick-tier version with concrete shapes (key lengths 0, 1, max; maximal digest; one-byte message); the symbolic-shape version is c01_t_blake2s_keyed_end_to_end
+    let key: [u8; MAXKEY] = any();
+    let m: u8 = any();
+    let prior: [u8; MAXOUT] = any();
+    let mut out = prior;
+    ContextDyn::new_keyed(MAXOUT, &key[..0]).update(&[m]).finalize_at(&mut out[..]);
+    check_digest(&out, &prior, MAXOUT, &spec_blake2(MAXOUT, &key, 0, &[m, 0, 0], 1));
+    let mut out = prior;
+    ContextDyn::new_keyed(MAXOUT, &key[..1]).update(&[m]).finalize_at(&mut out[..]);
+    check_digest(&out, &prior, MAXOUT, &spec_blake2(MAXOUT, &key, 1, &[m, 0, 0], 1));
+    let mut out = prior;
+    ContextDyn::new_keyed(MAXOUT, &key[..]).update(&[m]).finalize_at(&mut out[..]);
+    check_digest(&out, &prior, MAXOUT, &spec_blake2(MAXOUT, &key, MAXKEY, &[m, 0, 0], 1));
+    let mut out = prior;
+    ContextDyn::new_keyed(MAXOUT, &key[..]).finalize_at(&mut out[..]);
+    check_digest(&out, &prior, MAXOUT, &spec_blake2(MAXOUT, &key, MAXKEY, &[0, 0, 0], 0));
 }
 #[cfg_attr(kani, kani::proof)]
 #[cfg_attr(kani, kani::unwind(66))]
